@@ -24,8 +24,20 @@ Fixpoint fault_at (l : list (nat * fault)) (n : nat) : fault :=
   | (k, f) :: r => if Nat.eqb k n then f else fault_at r n
   end.
 
+Definition d_ob (t : tree) : option (option bool) :=
+  match t with I 0 => Some None | I 1 => Some (Some true) | I 2 => Some (Some false) | _ => None end%Z.
+Definition d_lbeh (t : tree) : option lbeh :=
+  match t with
+  | L [d; p; o] =>
+      match d_ob d, d_ob p, as_nat o with
+      | Some d, Some p, Some o => Some (mkl d p o)
+      | _, _, _ => None
+      end
+  | _ => None
+  end.
+
 Definition code_z (c : code) : Z :=
-  match c with ROk => 0 | RErr => 1 | RDisc => 2 | RPending => 3 | RInvalidReq => 5 end%Z.
+  match c with ROk => 0 | RErr => 1 | RDisc => 2 | RPending => 3 | RInvalidReq => 5 | RCustom _ => 6 end%Z.
 
 Fixpoint e_run (s : st) (l : list (code * st)) : list tree :=
   match l with
@@ -33,14 +45,17 @@ Fixpoint e_run (s : st) (l : list (code * st)) : list tree :=
   | (c, s') :: r =>
       L [I (code_z c); of_bool (invalidated s');
          I (match s_txn s' with TNone => 0 | TActive => 1 | TInactive => 2 end)%Z;
+         I (match s_nested s' with [] => 0 | true :: _ => 1 | false :: _ => 2 end)%Z;
          of_list (fun kc => L [of_nat (fst kc); of_nat (snd kc)]) (calls_since s s')] :: e_run s' r
   end.
 
-(* input  L [history; faults; listener; idle]   output: per operation L [code; invalidated; transaction state; DBAPI calls] *)
+(* listeners: L [is_disconnect; invalidate_pool; ending] with 0 untouched / 1 True / 2 False and ending 0 return None,
+   1 return an exception, 2 raise
+   input  L [history; faults; listeners; idle]   output: per operation L [code; invalidated; transaction state; current savepoint (0 none, 1 active, 2 inactive); DBAPI calls] *)
 Definition run_case (t : tree) : tree :=
   match t with
   | L [h; fs; l; w] =>
-      match as_list_of d_op h, as_list_of d_fault fs, as_nat l, as_nat w with
+      match as_list_of d_op h, as_list_of d_fault fs, as_list_of d_lbeh l, as_nat w with
       | Some h, Some fs, Some l, Some w => L (e_run (init w) (run (fault_at fs) l h (init w)))
       | _, _, _, _ => bad_input
       end
